@@ -140,6 +140,9 @@ type Point struct {
 	Quals    []string `json:"quals,omitempty"`
 	Embed    []string `json:"embed,omitempty"` // carrier chain; element starting lower-case = unexported carrier; element starting with "S" = a carrier type shared between several positions; "P0" = a carrier whose type has a value-receiver Prefix() string method
 	GoField  string   `json:"goField,omitempty"`
+	// Anon (kind iface): the point is an embedded (anonymous) interface field that itself
+	// carries the tag; its Go field name (GoField) is the interface's type name.
+	Anon bool `json:"anon,omitempty"`
 }
 
 // Custom is a field carrying a custom tag (C11): a user-supplied tag scanner must receive
@@ -275,7 +278,9 @@ type Proc struct {
 	// Lazy: the processor itself is marked LazyInit (like the container's own processors).
 	Lazy bool `json:"lazy,omitempty"`
 	// PropsRet: what PostProcessProperties returns next to a nil error: "" nil, "empty" a
-	// non-nil empty list, "same" the list it was given (the result carries no meaning).
+	// non-nil empty list, "same" the list it was given, "inplace" the list it was given compacted
+	// in place to every second element (the result carries no meaning, and the list is the
+	// processor's to scribble on).
 	PropsRet string `json:"propsRet,omitempty"`
 }
 
